@@ -380,6 +380,8 @@ def show(e, fn=None, depth=0):
         if fn is not None and fn.local_name(e[1]):
             return fn.local_name(e[1])
         return "_%d" % e[1]
+    if t == "havoc":
+        return "%s'" % ((fn.local_name(e[1]) if fn is not None else None) or "_%d" % e[1])
     if t == "field":
         return "%s.%s" % (show(e[1], fn, depth + 1), e[2])
     if t == "variant":
